@@ -6,12 +6,35 @@ from __future__ import absolute_import, division
 import json
 import re
 from datetime import date, datetime
+from decimal import Decimal
 
 # This is a hack to determine the type of object that re.compile returns, since the type
 #    "re.RegexObject" mentioned in the official Python documentation doesn't actually exist.
 # Could alternatively use "re._pattern_type" (undocumented and marked private)
 #    or the following in 3.6: "from typing import Pattern"
 REGEX_TYPE = type(re.compile(""))
+
+
+def plainDecimal(value):
+    """
+    Convert a number to text suitable for a Gcode word (plain decimal, never exponent notation).
+
+    Parameters
+    ----------
+    value : number
+        The value to render.
+
+    Returns
+    -------
+    string
+        The same text as str(value), except that floats Python would render in exponent notation
+        (e.g. 1e-05 or 1e+16) are written out in full, since firmware does not read an "e" exponent.
+    """
+    text = str(value)
+    if (isinstance(value, float) and (("e" in text) or ("E" in text))):
+        text = format(Decimal(text), "f")
+
+    return text
 
 
 class JsonEncoder(json.JSONEncoder):
